@@ -77,6 +77,8 @@ def alphabet(tier):
         # a perfect Karmarkar-Karp start (the searches return before their main loop), one-bin requests
         {"algo": "snp", "items": [4, 4, 2, 2], "k": 2}, {"algo": "rnp", "items": [3, 3, 3], "k": 3}, {"algo": "ckk", "items": A, "k": 1},
         {"algo": "snp", "items": C, "k": 1}, {"algo": "cg", "items": A, "k": 1, "kw": {}},
+        # calls aborted after an exactly filled bin
+        {"algo": "bf", "items": [6, 4, 7, 11], "B": 10}, {"algo": "ff", "items": [3, 3, 2, 9], "B": 6}, {"algo": "bf", "items": [6, 4, 7, 3], "B": 10},
         # failing calls
         {"algo": "ff", "items": [3, 9], "B": 6}, {"algo": "bc", "items": [3, 9, 2], "B": 6},
         {"algo": "cbldm", "items": A, "k": 3}, {"algo": "cbldm", "items": [3, -1], "k": 2},
@@ -332,6 +334,11 @@ def grid_families(tier):
         fmts = ("list", "dict_str") if idx % 6 == 0 else ("list",)
         for fmt in fmts:
             for B in (9, 10, 11):
+                if fmt == "list" and idx % 3 == 0:
+                    # a call that is refused half-way (an oversize item arrives after earlier placements, some of them exact
+                    # fills), then the ordinary calls: nothing of the aborted call may survive
+                    for a in ("ff", "bf", "bc"):
+                        ffit.append({"algo": a, "items": sorted(items, reverse=True)[:3] + [B - sorted(items, reverse=True)[0]] + [B + 1] + items[:2], "B": B, "fmt": fmt})
                 for a in ("ff", "ffd", "bf", "bfd"):
                     ffit.append({"algo": a, "items": items, "B": B, "fmt": fmt})
                 for out in ("PartitionAndSumsTuple", "Sums"):
@@ -359,7 +366,19 @@ def grid_families(tier):
         for a in scopes.PACK_ALGOS + scopes.COVER_ALGOS:
             for v in vals:
                 fsh.append({"algo": a, "items": list(v), "B": 6, "fmt": "names_shared"})
+    # ... and ONE dict object passed as `items`, its values changed in place between calls
+    fds = []
+    for n in (4, 5):
+        vals = [scopes.scramble(ms) for ms in spaces.multisets((1, 2, 3, 5), n, n)]
+        for a in ("greedy", "multifit", "kk", "ckk", "dp"):
+            for v in vals:
+                fds.append({"algo": a, "items": list(v), "k": 3, "fmt": "dict_shared", "kw": {"objective": "MinimizeDifference"} if a == "dp" else {}})
+        for a in scopes.PACK_ALGOS + scopes.COVER_ALGOS:
+            for v in vals:
+                fds.append({"algo": a, "items": list(v), "B": 6, "fmt": "dict_shared"})
+                fds.append({"algo": a, "items": list(v), "B": 6, "fmt": "dict_shared", "out": "Sums"})
     fam["shared-valueof"] = fsh
+    fam["shared-dict"] = fds
     # one objective OBJECT per parameterised objective, re-used by calls with fewer bins than its parameter and with more
     fko = []
     for ms in spaces.multisets((1, 2, 3, 5), 5, 5):
